@@ -180,7 +180,15 @@ func Generate(repo, mode, outDir, srcDir string) (*Info, error) {
 		for _, n := range names {
 			fmt.Fprintf(&b, ", %s", n)
 		}
-		fmt.Fprintf(&b, ")\n}\n")
+		fmt.Fprintf(&b, ")\n}\n\n")
+		for _, n := range names {
+			fmt.Fprintf(&b, "var verifSaved_%s = %s\n", n, n)
+		}
+		fmt.Fprintf(&b, "\n// VerifRestore puts every package-level variable back to its value at program start (shallow).\nfunc VerifRestore() {\n")
+		for _, n := range names {
+			fmt.Fprintf(&b, "\t%s = verifSaved_%s\n", n, n)
+		}
+		fmt.Fprintf(&b, "}\n")
 		if err := emit(filepath.Join(pk.Dir, "verif_snapshot_gen.go"), b.Bytes()); err != nil {
 			return nil, err
 		}
@@ -533,7 +541,11 @@ func Generate(repo, mode, outDir, srcDir string) (*Info, error) {
 		for i, pk := range snapPkgs {
 			fmt.Fprintf(&b, "\ts += %q + snap%d.VerifSnapshot() + \"\\n\"\n", pk.ImportPath+": ", i)
 		}
-		fmt.Fprintf(&b, "\treturn s\n}\n\nconst buildMode = %q\n", mode)
+		fmt.Fprintf(&b, "\treturn s\n}\n\n// globalRestore resets every package-level variable of the module to its initial value.\nfunc globalRestore() {\n")
+		for i := range snapPkgs {
+			fmt.Fprintf(&b, "\tsnap%d.VerifRestore()\n", i)
+		}
+		fmt.Fprintf(&b, "}\n\nconst buildMode = %q\n", mode)
 		if err := emit(filepath.Join(repo, "verifx", "worker", "snapshot_gen.go"), b.Bytes()); err != nil {
 			return nil, err
 		}
